@@ -462,4 +462,503 @@ example : C05.Spec.octets exEof.fd.header ++ [u8 exEof.fd.code] ++ Spec.eofParam
 example : WFEof ⟨⟨⟨0, 0, 10, ⟨⟨1, 0⟩, ⟨1, 0⟩, ⟨1, 0⟩, 0, 0, 0, 0, 0⟩⟩, 4⟩, 0, [0, 0, 0, 0], 4294967295, none⟩ := by decide
 example : ¬ fits 4 4294967296 := by decide
 
+/-! ## Finished (`C06_finished_*`) -/
+
+/-- the filestore responses as the standard lays them out: the TLVs of C08 in list order -/
+def Spec.responses : List FileStoreResponseTlv → Bytes
+  | [] => []
+  | r :: l => C08.Spec.fsResponse r ++ Spec.responses l
+
+/-- every response is a valid filestore-response TLV (C08) -/
+def WFResponses (l : List FileStoreResponseTlv) : Prop := ∀ r ∈ l, C08.WFResp r
+
+instance (l : List FileStoreResponseTlv) : Decidable (WFResponses l) := by unfold WFResponses; infer_instance
+
+/-- valid Finished PDUs: every `ConditionCode` / `DeliveryCode` / `FileStatus` member, any number of
+    valid filestore responses, a fault location (entity ID of any width) only with a condition code
+    that can have one (DESIGN §8), towards the sender, any header configuration -/
+def WFFin (k : Finished) : Prop :=
+  0 ≤ k.cond ∧ k.cond.toNat ∈ condMembers ∧ k.delivery < 2 ∧ k.status < 4 ∧
+  WFResponses k.responses ∧ WFFault k.faultLoc ∧
+  (k.faultLoc ≠ none → mightHaveFaultLoc k.cond = true) ∧
+  WFBase k.fd 5 1 (1 + (Spec.responses k.responses).length + (Spec.fault k.faultLoc).length)
+
+instance (k : Finished) : Decidable (WFFin k) := by unfold WFFin; infer_instance
+
+/-- the parameters of 727.0-B-5 §5.2.3 -/
+def Spec.finParams (k : Finished) : Bytes :=
+  [u8 (k.cond.toNat * 16 + k.delivery * 4 + k.status)] ++ Spec.responses k.responses ++ Spec.fault k.faultLoc
+
+def Spec.finished (k : Finished) : Bytes := C06Fixed.Spec.pdu k.fd (Spec.finParams k)
+
+private theorem finOctet_all : ∀ c < 16, ∀ d < 2, ∀ s < 4,
+    ((c <<< 4) ||| (d <<< 2)) ||| s = c * 16 + d * 4 + s := by decide
+
+private theorem cond_lt (c : Nat) (h : c ∈ condMembers) : c < 16 := by
+  simp only [condMembers, List.mem_cons, List.not_mem_nil, or_false] at h; omega
+
+private theorem resp_pack (r : FileStoreResponseTlv) (wf : C08.WFResp r) :
+    r.pack = .ok (C08.Spec.fsResponse r) ∧ (C08.Spec.fsResponse r).length = r.packetLen ∧
+    2 ≤ (C08.Spec.fsResponse r).length := by
+  have h := C08.C08_fs_response_pack_exact r wf
+  refine ⟨h, C08.C08_fs_response_len r _ h, ?_⟩
+  simp [C08.Spec.fsResponse, C08.Spec.tlv]
+
+private theorem packResponses_spec (l : List FileStoreResponseTlv) (wf : WFResponses l) :
+    packResponses l = .ok (Spec.responses l) := by
+  induction l with
+  | nil => rfl
+  | cons r l ih =>
+    have hr := (resp_pack r (wf r List.mem_cons_self)).1
+    have hl : WFResponses l := fun q hq => wf q (List.mem_cons_of_mem _ hq)
+    simp only [packResponses, hr, ih hl, bind, Except.bind, pure, Except.pure, Spec.responses]
+
+private theorem responsesLen_spec (l : List FileStoreResponseTlv) (wf : WFResponses l) :
+    responsesLen l = (Spec.responses l).length := by
+  induction l with
+  | nil => rfl
+  | cons r l ih =>
+    have hr := (resp_pack r (wf r List.mem_cons_self)).2.1
+    have hl : WFResponses l := fun q hq => wf q (List.mem_cons_of_mem _ hq)
+    simp only [responsesLen, Spec.responses, List.length_append, ih hl, hr]
+
+private theorem fin_faultLen (cond : Int) (fl : Option EntityIdTlv) (h : fl ≠ none → mightHaveFaultLoc cond = true) :
+    Finished.faultLen cond fl = (Spec.fault fl).length := by
+  cases fl with
+  | none => rfl
+  | some t =>
+    have := h (by simp)
+    rw [fault_length]
+    simp [Finished.faultLen, Eof.faultLen, this]
+
+private theorem fin_packFault (cond : Int) (fl : Option EntityIdTlv) (wf : WFFault fl)
+    (h : fl ≠ none → mightHaveFaultLoc cond = true) :
+    Finished.packFaultLoc cond fl = .ok (Spec.fault fl) := by
+  cases fl with
+  | none => rfl
+  | some t =>
+    have := h (by simp)
+    have hp := packFault_spec (some t) wf
+    simp only [Finished.packFaultLoc, this, ↓reduceIte]
+    exact hp
+
+private theorem fin_plen (c : Nat) (k : Finished) (hr : WFResponses k.responses)
+    (hm : k.faultLoc ≠ none → mightHaveFaultLoc k.cond = true) :
+    finParamLen c k.cond k.responses k.faultLoc + 1
+      = 1 + (1 + (Spec.responses k.responses).length + (Spec.fault k.faultLoc).length) + (if c = 1 then 2 else 0) := by
+  unfold finParamLen
+  rw [fin_faultLen _ _ hm, responsesLen_spec _ hr]
+  split <;> omega
+
+/-- the constructor accepts every configuration and every parameter set whose encoding fits the
+    16-bit data-field length, forces the direction "towards sender" and yields a valid PDU -/
+theorem C06_finished_new (c : PduConfig) (wf : WFConf c) (cond : Int) (dc fs : Nat)
+    (rs : List FileStoreResponseTlv) (fl : Option EntityIdTlv)
+    (hn : finParamLen c.crcFlag cond rs fl + 1 ≤ 65535) :
+    ∃ k, Finished.new c cond dc fs rs fl = .ok k ∧ k.cond = cond ∧ k.delivery = dc ∧ k.status = fs ∧
+      k.responses = rs ∧ k.faultLoc = fl ∧ k.fd.header.conf = { c with direction := 1 } ∧
+      k.fd.header.dataFieldLen = finParamLen c.crcFlag cond rs fl + 1 ∧
+      (0 ≤ cond → cond.toNat ∈ condMembers → dc < 2 → fs < 4 → WFResponses rs → WFFault fl →
+        (fl ≠ none → mightHaveFaultLoc cond = true) → WFFin k) := by
+  rw [Finished.new_eq]
+  have g : ¬ (c.source.width ≠ c.dest.width ∨ 65535 < finParamLen c.crcFlag cond rs fl + 1) := by
+    have := wf.2.2.2.2.2.2.2.2; omega
+  rw [if_neg g]
+  refine ⟨_, rfl, rfl, rfl, rfl, rfl, rfl, rfl, rfl, ?_⟩
+  intro h0 h1 h2 h3 h4 h5 h6
+  refine ⟨h0, h1, h2, h3, h4, h5, h6, ?_, rfl, rfl, rfl, rfl, ?_⟩
+  · exact wf_dirHeader c wf _ _ (by omega) (by omega)
+  · simp only [crcLen]
+    exact fin_plen c.crcFlag ⟨⟨⟨0, 0, 0, c⟩, 5⟩, cond, dc, fs, rs, fl⟩ h4 h6
+
+/-- more filestore responses than the 16-bit data-field length can describe are refused
+    (`ValueError`) by the constructor -/
+theorem C06_finished_too_long (c : PduConfig) (cond : Int) (dc fs : Nat) (rs : List FileStoreResponseTlv)
+    (fl : Option EntityIdTlv) (hn : 65535 < finParamLen c.crcFlag cond rs fl + 1) :
+    Finished.new c cond dc fs rs fl = .error .value := by
+  rw [Finished.new_eq, if_pos (Or.inr hn)]
+
+/-- **pack = standard layout**, for every valid Finished PDU (any number of filestore responses in
+    list order, then the fault location) in every header configuration -/
+theorem C06_finished_pack_exact (k : Finished) (wf : WFFin k) : k.pack = .ok (Spec.finished k) := by
+  obtain ⟨h0, h1, h2, h3, h4, h5, h6, w1, _, _, w4, _, _⟩ := wf
+  unfold Finished.pack
+  have hneg : ¬ k.cond < 0 := by omega
+  have hb : ((k.cond.toNat <<< 4) ||| (k.delivery <<< 2)) ||| k.status
+      = k.cond.toNat * 16 + k.delivery * 4 + k.status := finOctet_all _ (cond_lt _ h1) _ h2 _ h3
+  have hlt : k.cond.toNat * 16 + k.delivery * 4 + k.status < 256 := by have := cond_lt _ h1; omega
+  rw [pack_spec k.fd w1 (by omega), hb, byteOfN_ok hlt, packResponses_spec _ h4, fin_packFault _ _ h5 h6]
+  simp only [hneg, ↓reduceIte, bind, Except.bind, pure, Except.pure, Spec.finished, C06Fixed.Spec.pdu, Spec.finParams,
+    specOctets, List.append_assoc]
+
+/-- `ConditionCode.NO_CONDITION_FIELD` (−1) is constructible but cannot be packed (`ValueError`) -/
+theorem C06_finished_no_condition_field (k : Finished) (wf : C05.WF k.fd.header) (hc : k.fd.code < 256)
+    (h : k.cond < 0) : k.pack = .error .value := by
+  unfold Finished.pack
+  rw [pack_spec k.fd wf hc]
+  simp [h, bind, Except.bind, throw, throwThe, MonadExceptOf.throw]
+
+/-- **length clauses**: one octet, the responses, the fault location, plus 2 with CRC -/
+theorem C06_finished_len (k : Finished) (wf : WFFin k) :
+    (Spec.finished k).length = k.packetLen ∧
+    k.fd.header.dataFieldLen = (Spec.finished k).length - k.fd.header.headerLen ∧
+    k.fd.header.dataFieldLen = k.packetLen - k.fd.header.headerLen ∧
+    (Spec.finished k).length = k.fd.header.headerLen + 1
+      + (1 + (Spec.responses k.responses).length + (Spec.fault k.faultLoc).length) + crcLen k.fd.header.conf := by
+  have hl : (Spec.finParams k).length = 1 + (Spec.responses k.responses).length + (Spec.fault k.faultLoc).length := by
+    simp only [Spec.finParams, List.length_append, List.length_cons, List.length_nil]
+  have := pdu_len k.fd 5 1 (Spec.finParams k) (by rw [hl]; exact wf.2.2.2.2.2.2.2)
+  rw [hl] at this
+  exact this
+
+theorem C06_finished_crc (k : Finished) :
+    (k.fd.header.conf.crcFlag = 1 →
+      Spec.finished k = (C05.Spec.octets k.fd.header ++ [u8 k.fd.code] ++ Spec.finParams k)
+        ++ Crc.crcTrailer (C05.Spec.octets k.fd.header ++ [u8 k.fd.code] ++ Spec.finParams k) ∧
+      Crc.crc16 (Spec.finished k) = 0) ∧
+    (k.fd.header.conf.crcFlag ≠ 1 →
+      Spec.finished k = C05.Spec.octets k.fd.header ++ [u8 k.fd.code] ++ Spec.finParams k) :=
+  pdu_crc k.fd (Spec.finParams k)
+
+private theorem packResponses_length (l : List FileStoreResponseTlv) (b : Bytes) (h : packResponses l = .ok b) :
+    b.length = responsesLen l := by
+  induction l generalizing b with
+  | nil => cases h; rfl
+  | cons r l ih =>
+    simp only [packResponses, bind, Except.bind] at h
+    cases hr : r.pack with
+    | error e => rw [hr] at h; cases h
+    | ok x =>
+      rw [hr] at h
+      cases hl : packResponses l with
+      | error e => rw [hl] at h; cases h
+      | ok y =>
+        rw [hl] at h
+        cases h
+        simp only [List.length_append, responsesLen, C08.C08_fs_response_len r x hr, ih y hl]
+
+private theorem fin_packFault_length (cond : Int) (fl : Option EntityIdTlv) (b : Bytes)
+    (h : Finished.packFaultLoc cond fl = .ok b) : b.length = Finished.faultLen cond fl := by
+  cases fl with
+  | none => cases h; rfl
+  | some t =>
+    simp only [Finished.packFaultLoc, Finished.faultLen] at h ⊢
+    split at h
+    · rename_i hm
+      simp only [hm, ↓reduceIte]
+      exact CfdpTlv.pack_length t.tlv b h
+    · rename_i hm
+      simp only [hm]
+      cases h; rfl
+
+/-- **reported length = packed length for every parameter set, valid or not** (DESIGN §8: also for
+    a fault location given with a condition code that cannot have one — it is neither packed nor
+    counted): whenever the length the constructor / setters compute is in place and `pack` succeeds,
+    the octets are `packet_len` long and the data-field length counts the octets after the header -/
+theorem C06_finished_len_any (k : Finished) (wf : C05.WF k.fd.header) (hc : k.fd.code < 256)
+    (hinv : k.fd.header.dataFieldLen
+      = finParamLen k.fd.header.conf.crcFlag k.cond k.responses k.faultLoc + 1)
+    (b : Bytes) (h : k.pack = .ok b) :
+    b.length = k.packetLen ∧ k.fd.header.dataFieldLen = b.length - k.fd.header.headerLen := by
+  unfold Finished.pack at h
+  rw [pack_spec k.fd wf hc, bind_ok] at h
+  have hsl := specOctets_length k.fd wf
+  have hhl : k.fd.headerLen = k.fd.header.headerLen + 1 := rfl
+  have hpl : k.packetLen = k.fd.header.dataFieldLen + k.fd.header.headerLen := rfl
+  by_cases hneg : k.cond < 0
+  · simp [hneg, bind, Except.bind, throw, throwThe, MonadExceptOf.throw] at h
+  · simp only [hneg, ↓reduceIte] at h
+    cases hb : byteOfN (((k.cond.toNat <<< 4) ||| (k.delivery <<< 2)) ||| k.status) with
+    | error e => simp [hb, bind, Except.bind, pure, Except.pure] at h
+    | ok x =>
+      cases hr : packResponses k.responses with
+      | error e => simp [hb, hr, bind, Except.bind, pure, Except.pure] at h
+      | ok rs =>
+        cases hf : Finished.packFaultLoc k.cond k.faultLoc with
+        | error e => simp [hb, hr, hf, bind, Except.bind, pure, Except.pure] at h
+        | ok fl =>
+          simp only [hb, hr, hf, bind, Except.bind, pure, Except.pure, Except.ok.injEq] at h
+          have l1 := packResponses_length _ _ hr
+          have l2 := fin_packFault_length _ _ _ hf
+          subst h
+          unfold finParamLen at hinv
+          unfold withCrc
+          split
+          · rename_i hcf
+            simp only [hcf, ↓reduceIte] at hinv
+            simp only [List.length_append, hsl, List.length_cons, List.length_nil, Crc.crcTrailer, Crc.be16, l1, l2]
+            omega
+          · rename_i hcf
+            simp only [hcf, ↓reduceIte] at hinv
+            simp only [List.length_append, hsl, List.length_cons, List.length_nil, l1, l2]
+            omega
+
+/-! ### the TLV loop on laid-out responses and fault location -/
+
+private theorem spec_resp_head (r : FileStoreResponseTlv) (rest : Bytes) :
+    idx (C08.Spec.fsResponse r ++ rest) 0 = .ok 1 := by
+  simp [C08.Spec.fsResponse, C08.Spec.tlv, idx]
+
+private theorem spec_fault_head (t : EntityIdTlv) (rest : Bytes) :
+    idx (Spec.fault (some t) ++ rest) 0 = .ok 6 := by
+  simp [Spec.fault, C08.Spec.entityId, C08.Spec.tlv, idx]
+
+private theorem tail_nil (l : List FileStoreResponseTlv) (fl : Option EntityIdTlv) (wf : WFResponses l)
+    (h : Spec.responses l ++ Spec.fault fl = []) : l = [] ∧ fl = none := by
+  have hlen := congrArg List.length h
+  simp only [List.length_append, List.length_nil] at hlen
+  constructor
+  · cases l with
+    | nil => rfl
+    | cons r l =>
+      have := (resp_pack r (wf r List.mem_cons_self)).2.2
+      simp only [Spec.responses, List.length_append] at hlen
+      omega
+  · cases fl with
+    | none => rfl
+    | some t =>
+      have : 2 ≤ (Spec.fault (some t)).length := by simp [Spec.fault, C08.Spec.entityId, C08.Spec.tlv]
+      omega
+
+/-- **the loop reads laid-out filestore responses and the fault location back**, in order, and
+    stops exactly at the end of its input -/
+private theorem unpackTlvs_spec (might : Bool) (l : List FileStoreResponseTlv) (fl : Option EntityIdTlv)
+    (wf : WFResponses l) (hfl : WFFault fl) (hm : fl ≠ none → might = true) (hne : l ≠ [] ∨ fl ≠ none) :
+    unpackTlvs might (Spec.responses l ++ Spec.fault fl) = .ok (l, fl) := by
+  induction l with
+  | nil =>
+    cases fl with
+    | none => rcases hne with h | h <;> exact absurd rfl h
+    | some t =>
+      have hmt := hm (by simp)
+      have hu := unpack_fault t hfl []
+      rw [List.append_nil] at hu
+      have hh := spec_fault_head t []
+      rw [List.append_nil] at hh
+      rw [unpackTlvs]
+      simp only [Spec.responses, List.nil_append]
+      rw [hh, bind_ok]
+      have hlen : t.packetLen = (Spec.fault (some t)).length := by
+        rw [fault_length]; rfl
+      simp only [tFsResponse, tEntityId, show ¬ (6 : Nat) = 1 by omega, ↓reduceIte, hmt, not_true_eq_false, hu,
+        bind_ok, hlen, ge_iff_le, Nat.le_refl, ↓reduceDIte, pure, Except.pure]
+  | cons r l ih =>
+    have hr := resp_pack r (wf r List.mem_cons_self)
+    have hl : WFResponses l := fun q hq => wf q (List.mem_cons_of_mem _ hq)
+    have hd : Spec.responses (r :: l) ++ Spec.fault fl
+        = C08.Spec.fsResponse r ++ (Spec.responses l ++ Spec.fault fl) := by
+      simp [Spec.responses]
+    rw [unpackTlvs, hd, spec_resp_head, bind_ok]
+    have hu := C08.C08_fs_response_roundtrip r (wf r List.mem_cons_self) (Spec.responses l ++ Spec.fault fl)
+    simp only [tFsResponse, ↓reduceIte, hu, bind_ok]
+    by_cases hnil : Spec.responses l ++ Spec.fault fl = []
+    · obtain ⟨e1, e2⟩ := tail_nil l fl hl hnil
+      subst e1 e2
+      have : r.packetLen ≥ (C08.Spec.fsResponse r ++ (Spec.responses [] ++ Spec.fault none)).length := by
+        simp [Spec.responses, Spec.fault, hr.2.1]
+      simp only [this, ↓reduceDIte, pure, Except.pure]
+    · have hpos : 0 < (Spec.responses l ++ Spec.fault fl).length := List.length_pos_iff.mpr hnil
+      have : ¬ r.packetLen ≥ (C08.Spec.fsResponse r ++ (Spec.responses l ++ Spec.fault fl)).length := by
+        rw [List.length_append, hr.2.1]; omega
+      simp only [this, ↓reduceDIte]
+      have hdrop : (C08.Spec.fsResponse r ++ (Spec.responses l ++ Spec.fault fl)).drop r.packetLen
+          = Spec.responses l ++ Spec.fault fl := List.drop_left' hr.2.1
+      have hne' : l ≠ [] ∨ fl ≠ none := by
+        by_cases h1 : l = []
+        · by_cases h2 : fl = none
+          · subst h1 h2; simp [Spec.responses, Spec.fault] at hnil
+          · exact Or.inr h2
+        · exact Or.inl h1
+      rw [hdrop, ih hl hne', bind_ok]
+      rfl
+
+private theorem fin_octet (c d s : Nat) (hc : c < 16) (hd : d < 2) (hs : s < 4) :
+    (c * 16 + d * 4 + s) % 256 / 16 % 16 = c ∧ (c * 16 + d * 4 + s) % 256 / 4 % 2 = d ∧
+    (c * 16 + d * 4 + s) % 256 % 4 = s := by omega
+
+/-- **round trip, whatever follows the PDU**: decoding the packed PDU followed by arbitrary octets
+    returns the identical PDU — same header, condition / delivery / status codes, the same filestore
+    responses in the same order and the same fault location; neither the CRC trailer nor trailing
+    octets are read as TLVs -/
+theorem C06_finished_roundtrip (k : Finished) (wf : WFFin k) (rest : Bytes) :
+    Finished.unpack (Spec.finished k ++ rest) = .ok k := by
+  obtain ⟨h0, h1, h2, h3, h4, h5, h6, wb⟩ := wf
+  have hpl : (Spec.finParams k).length = 1 + (Spec.responses k.responses).length + (Spec.fault k.faultLoc).length := by
+    simp only [Spec.finParams, List.length_append, List.length_cons, List.length_nil]
+  have wb' : WFBase k.fd 5 1 (Spec.finParams k).length := by rw [hpl]; exact wb
+  obtain ⟨hp, _⟩ := prelude_pdu k.fd 5 1 (Spec.finParams k) rest wb' (by omega)
+  have w1 := wb.1
+  have hc16 := cond_lt _ h1
+  rw [Finished.unpack_eq, Spec.finished, hp]
+  show Finished.parse (k.fd, specOctets k.fd ++ Spec.finParams k) = _
+  have hsl := specOctets_length k.fd w1
+  have hlen : (specOctets k.fd ++ Spec.finParams k).length
+      = k.fd.headerLen + 1 + (Spec.responses k.responses ++ Spec.fault k.faultLoc).length := by
+    simp only [List.length_append, hsl, hpl]; omega
+  have hi : idx (specOctets k.fd ++ Spec.finParams k) k.fd.headerLen
+      = .ok ((k.cond.toNat * 16 + k.delivery * 4 + k.status) % 256) := by
+    have := idx_params k.fd w1 (Spec.finParams k) 0
+    rw [Nat.add_zero] at this
+    rw [this]
+    simp [Spec.finParams, idx]
+  obtain ⟨o1, o2, o3⟩ := fin_octet _ _ _ hc16 h2 h3
+  have hcast : ((k.cond.toNat : Nat) : Int) = k.cond := by omega
+  have hdl : k.fd.header.dataFieldLen
+      = finParamLen k.fd.header.conf.crcFlag k.cond k.responses k.faultLoc + 1 := by
+    rw [fin_plen _ k h4 h6]; have := wb.2.2.2.2.2; simpa [crcLen] using this
+  have hle : k.fd.header.dataFieldLen ≤ 65535 := by have := w1.2.2.2.2.2.2.2.1; omega
+  unfold Finished.parse
+  simp only []
+  have c1 : ¬ k.fd.headerLen ≥ (specOctets k.fd ++ Spec.finParams k).length := by omega
+  rw [if_neg c1, hi]
+  simp only [bind_ok, o1, o2, o3, enumOf, h1, ↓reduceIte, hcast]
+  rw [Finished.calcLen_eq']
+  have hmono : finParamLen k.fd.header.conf.crcFlag k.cond [] none
+      ≤ finParamLen k.fd.header.conf.crcFlag k.cond k.responses k.faultLoc := by
+    unfold finParamLen
+    have := Finished.faultLen_none_le k.cond k.faultLoc
+    simp only [responsesLen]; omega
+  have g0 : ¬ 65535 < finParamLen k.fd.header.conf.crcFlag k.cond [] none + 1 := by omega
+  rw [if_neg g0, bind_ok]
+  by_cases hne : k.responses ≠ [] ∨ k.faultLoc ≠ none
+  · have hpos : 0 < (Spec.responses k.responses ++ Spec.fault k.faultLoc).length := by
+      apply List.length_pos_iff.mpr
+      intro hnil
+      obtain ⟨e1, e2⟩ := tail_nil _ _ h4 hnil
+      rcases hne with h | h
+      · exact h e1
+      · exact h e2
+    have c2 : (specOctets k.fd ++ Spec.finParams k).length > k.fd.headerLen + 1 := by omega
+    rw [if_pos c2, drop_params k.fd w1]
+    have hd : (Spec.finParams k).drop 1 = Spec.responses k.responses ++ Spec.fault k.faultLoc := by
+      simp [Spec.finParams]
+    rw [hd, unpackTlvs_spec _ _ _ h4 h5 h6 hne, bind_ok, Finished.finish_eq]
+    simp only []
+    have hmono2 : finParamLen k.fd.header.conf.crcFlag k.cond k.responses none
+        ≤ finParamLen k.fd.header.conf.crcFlag k.cond k.responses k.faultLoc := by
+      unfold finParamLen
+      have := Finished.faultLen_none_le k.cond k.faultLoc
+      omega
+    have g1 : ¬ 65535 < finParamLen k.fd.header.conf.crcFlag k.cond k.responses none + 1 := by omega
+    rw [if_neg g1, Finished.calcLen_setLen, Finished.calcLen_eq']
+    have g2 : ¬ 65535 < finParamLen k.fd.header.conf.crcFlag k.cond k.responses k.faultLoc + 1 := by omega
+    rw [if_neg g2, bind_ok, fd_eta k.fd _ hdl]
+    rfl
+  · have e1 : k.responses = [] := by
+      by_cases h : k.responses = []
+      · exact h
+      · exact absurd (Or.inl h) hne
+    have e2 : k.faultLoc = none := by
+      by_cases h : k.faultLoc = none
+      · exact h
+      · exact absurd (Or.inr h) hne
+    have c2 : ¬ (specOctets k.fd ++ Spec.finParams k).length > k.fd.headerLen + 1 := by
+      rw [hlen, e1, e2]; simp [Spec.responses, Spec.fault]
+    rw [if_neg c2]
+    rw [e1, e2] at hdl
+    rw [fd_eta k.fd _ hdl]
+    cases k with
+    | mk fd cond dl st rs fl =>
+      simp only at e1 e2
+      subst e1 e2
+      rfl
+
+/-- the decoded PDU **compares equal** to the original (both ways) and **re-packs to the same
+    octets** (`==` needs a fault location whose entity ID has a width the library can compare) -/
+theorem C06_finished_eq_repack (k : Finished) (wf : WFFin k) (hw : EqWidth k.faultLoc) (rest : Bytes) :
+    ∃ k', (k.pack >>= fun b => Finished.unpack (b ++ rest)) = .ok k' ∧ k' = k ∧
+      k.beq k' = .ok true ∧ k'.beq k = .ok true ∧ k'.pack = k.pack := by
+  have hresp : ∀ l : List FileStoreResponseTlv, WFResponses l → responsesBeqAux l l = .ok true := by
+    intro l
+    induction l with
+    | nil => intro _; rfl
+    | cons r l ih =>
+      intro hl
+      have hr := (resp_pack r (hl r List.mem_cons_self)).1
+      have hv : r.value = .ok (C08.Spec.fsResponse r).tail.tail := by
+        unfold FileStoreResponseTlv.pack at hr
+        unfold FileStoreResponseTlv.value
+        cases hb : r.buildTlv with
+        | error e => rw [hb] at hr; cases hr
+        | ok t =>
+          rw [hb, bind_ok] at hr
+          obtain ⟨_, _, he⟩ := CfdpTlv.pack_ok t _ hr
+          rw [he]
+          rfl
+      have hl' : WFResponses l := fun q hq => hl q (List.mem_cons_of_mem _ hq)
+      simp only [responsesBeqAux, AnyTlv.beq, AnyTlv.tlvType, AnyTlv.value, hv, ne_eq, not_true_eq_false,
+        ↓reduceIte, bind, Except.bind, pure, Except.pure, BEq.rfl, ih hl']
+  refine ⟨k, ?_, rfl, ?_, ?_, rfl⟩
+  · rw [C06_finished_pack_exact k wf]; exact C06_finished_roundtrip k wf rest
+  all_goals
+    simp [Finished.beq, responsesBeq, hresp _ wf.2.2.2.2.1, optEntityBeq_refl _ hw, beq_refl, bind, Except.bind,
+      pure, Except.pure]
+
+/-- **the three documented setters keep the length consistent**: afterwards the PDU is the one a
+    fresh constructor call with the new value gives (or both are refused as too long) -/
+theorem C06_finished_setters (c : PduConfig) (cond : Int) (dc fs : Nat) (rs : List FileStoreResponseTlv)
+    (fl : Option EntityIdTlv) (hn : finParamLen c.crcFlag cond rs fl + 1 ≤ 65535) :
+    (∀ cond', (Finished.new c cond dc fs rs fl >>= fun k => k.setCond cond') = Finished.new c cond' dc fs rs fl) ∧
+    (∀ rs', (Finished.new c cond dc fs rs fl >>= fun k => k.setResponses rs')
+      = Finished.new c cond dc fs (rs'.getD []) fl) ∧
+    (∀ fl', (Finished.new c cond dc fs rs fl >>= fun k => k.setFaultLoc fl') = Finished.new c cond dc fs rs fl') := by
+  by_cases g : c.source.width ≠ c.dest.width
+  · refine ⟨fun _ => ?_, fun _ => ?_, fun _ => ?_⟩ <;>
+      rw [Finished.new_eq, Finished.new_eq, if_pos (Or.inl g), if_pos (Or.inl g)] <;> rfl
+  · have g0 : ¬ (c.source.width ≠ c.dest.width ∨ 65535 < finParamLen c.crcFlag cond rs fl + 1) := by omega
+    refine ⟨fun cond' => ?_, fun rs' => ?_, fun fl' => ?_⟩
+    · rw [Finished.new_eq, Finished.new_eq, if_neg g0, bind_ok, Finished.setCond_eq]
+      by_cases g1 : 65535 < finParamLen c.crcFlag cond' rs fl + 1
+      · simp [g, g1]
+      · simp [g, g1]
+    · rw [Finished.new_eq, Finished.new_eq, if_neg g0, bind_ok, Finished.setResponses_eq]
+      by_cases g1 : 65535 < finParamLen c.crcFlag cond (rs'.getD []) fl + 1
+      · simp [g, g1]
+      · simp [g, g1]
+    · rw [Finished.new_eq, Finished.new_eq, if_neg g0, bind_ok, Finished.setFaultLoc_eq]
+      by_cases g1 : 65535 < finParamLen c.crcFlag cond rs fl' + 1
+      · simp [g, g1]
+      · simp [g, g1]
+
+/-- the decoder fails, for any octet string whatever, only with `ValueError`,
+    `UnsupportedCfdpVersion`, `InvalidCrc` or `TlvTypeMissmatch`; its TLV loop terminates (it is
+    defined by well-founded recursion) and never raises `IndexError` -/
+theorem C06_finished_documented (d : Bytes) : Documented (Finished.unpack d) := Finished.unpack_documented d
+
+/-- what acceptance means: the buffer holds the whole declared PDU, the CRC-16 over exactly the
+    declared PDU is zero when the flag is set, and the result depends on the declared PDU only -/
+theorem C06_finished_accept_sound (d : Bytes) (k : Finished) (h : Finished.unpack d = .ok k) :
+    ∃ fd p, prelude d = .ok (fd, p) ∧ fd.packetLen ≤ d.length ∧
+      (fd.header.conf.crcFlag = 1 → Crc.crc16 (d.take fd.packetLen) = 0) ∧
+      ∀ rest, Finished.unpack (d.take fd.packetLen ++ rest) = .ok k := by
+  obtain ⟨fd, p, hp, hf, h3, h4, h2⟩ := Finished.unpack_inv d k h
+  refine ⟨fd, p, hp, h3, h4, fun rest => ?_⟩
+  rw [Finished.unpack_eq, prelude_take d fd p hp (by omega) rest]
+  exact hf
+
+/-- **every strict prefix of a packed PDU is refused with `ValueError`** -/
+theorem C06_finished_truncated (x : Finished) (wf : WFFin x) (k : Nat) (hk : k < (Spec.finished x).length) :
+    Finished.unpack ((Spec.finished x).take k) = .error .value := by
+  rw [Finished.unpack_eq]
+  have hl : (Spec.finParams x).length = 1 + (Spec.responses x.responses).length + (Spec.fault x.faultLoc).length := by
+    simp only [Spec.finParams, List.length_append, List.length_cons, List.length_nil]
+  exact pdu_truncated _ x.fd _ _ _ (by rw [hl]; exact wf.2.2.2.2.2.2.2) k hk
+
+-- non-vacuity: FILESTORE_REJECTION, data incomplete, file retained, two responses (one with two names and a
+-- non-ASCII name), 4-octet fault location, CRC
+private def exFin : Finished :=
+  ⟨⟨⟨0, 0, 26, ⟨⟨1, 7⟩, ⟨1, 8⟩, ⟨2, 0x0102⟩, 1, 0, 1, 1, 0⟩⟩, 5⟩, 4, 1, 2,
+    [⟨0, 1, [0x61], [], ⟨[]⟩⟩, ⟨2, 33, [0xC3, 0xA4], [0x62], ⟨[9]⟩⟩], some ⟨⟨6, [1, 2, 3, 4]⟩⟩⟩
+example : WFFin exFin := by decide
+example : Finished.new ⟨⟨1, 7⟩, ⟨1, 8⟩, ⟨2, 0x0102⟩, 1, 0, 1, 0, 0⟩ 4 1 2
+    [⟨0, 1, [0x61], [], ⟨[]⟩⟩, ⟨2, 33, [0xC3, 0xA4], [0x62], ⟨[9]⟩⟩] (some ⟨⟨6, [1, 2, 3, 4]⟩⟩) = .ok exFin := by rfl
+example : C05.Spec.octets exFin.fd.header ++ [u8 exFin.fd.code] ++ Spec.finParams exFin
+    = [0x2E, 0, 26, 0x01, 7, 1, 2, 8, 5, 0x46,
+       1, 4, 0x01, 1, 0x61, 0,
+       1, 8, 0x21, 2, 0xC3, 0xA4, 1, 0x62, 1, 9,
+       6, 4, 1, 2, 3, 4] := by decide
+example : WFFin ⟨⟨⟨0, 0, 2, ⟨⟨1, 0⟩, ⟨1, 0⟩, ⟨1, 0⟩, 0, 0, 0, 1, 0⟩⟩, 5⟩, 0, 0, 2, [], none⟩ := by decide
+-- a fault location with "no error" is outside the exact-layout domain
+example : ¬ WFFin ⟨⟨⟨0, 0, 2, ⟨⟨1, 0⟩, ⟨1, 0⟩, ⟨1, 0⟩, 0, 0, 0, 1, 0⟩⟩, 5⟩, 0, 0, 2, [], some ⟨⟨6, [1]⟩⟩⟩ := by decide
+
 end SpVerif.Props.C06Var
